@@ -1223,3 +1223,10 @@ def child_execution_routing(aio_mod: bool, cfg: int, res: int, named: bool) -> b
     if item["context"]["Execution"]["Id"] != child_ex or not same(item["data"], {"v": 1}) or item["context"]["State"]["Name"] != "":
         return False
     return (len(out["cb"]) == 1 and out["cb"][0]["executionArn"] == child_ex) if fire_and_forget else out["cb"] == []
+
+
+# ---------------------------------------------------------------------------
+# Whole-run instance affinity over the simulated broker (see c19_affinity.py)
+# ---------------------------------------------------------------------------
+import c19_affinity as _aff
+_aff.register(globals())
